@@ -1,0 +1,67 @@
+//go:build verif
+
+package zcnsc
+
+// Machine-checked contracts for /verif/govc (contract-based deductive verification).
+// This file contains comments only; it is compiled only with -tags verif and adds no code.
+
+// Ghost registry of what the bridge contract has stored in chain state:
+//   $authKey[id]     public key of the registered authorizer id
+//   $burnNonce[addr] burn nonce stored for an Ethereum address
+//@ ghost $authKey (Str) Str
+//@ ghost $burnNonce (Str) Int
+//@ uf mint_msg (Ptr) Str
+
+// Readers of chain state: trusted contracts (they decode trie nodes; GetTrieNode is external).
+//@ func GetAuthorizerNode
+//@   trusted
+//@   ensures err == nil ==> result != nil && fresh(result) && result.PublicKey == $authKey[id]
+//@   ensures err != nil ==> result == nil
+//@   modifies nothing
+
+//@ func GetUserNode
+//@   trusted
+//@   ensures err == nil ==> result != nil && fresh(result) && result.ID == id && result.BurnNonce == $burnNonce[id] && result.BurnNonce >= 0 && result.BurnNonce < MaxInt64
+//@   ensures err != nil ==> result == nil
+//@   modifies nothing
+
+//@ func GetGlobalNode
+//@   trusted
+//@   ensures err == nil ==> result != nil && fresh(result) && result.ZCNSConfig != nil
+//@   ensures err != nil ==> result == nil
+//@   modifies nothing
+
+//@ func (*BurnPayload).Decode
+//@   trusted
+//@   modifies bp.EthereumAddress
+
+//@ func (*MintPayload).GetStringToSign
+//@   trusted
+//@   ensures result == mint_msg(mp)
+//@   modifies nothing
+
+// ---------------------------------------------------------------- burn (C19)
+// A successful burn queues exactly one transfer of the transaction value from the burner to the
+// bridge wallet and stores the user node with the nonce raised by exactly one; nothing is stored
+// or queued unless the amount reaches the minimum and a target address is given.
+//@ func (*ZCNSmartContract).Burn
+//@   prop C19
+//@   requires zcn != nil && trans != nil
+//@   at-call Save assert trans.Value >= gn.MinBurnAmount && payload.EthereumAddress != ""
+//@   at-call Save assert[nonce-plus-one] un.ID == payload.EthereumAddress && un.BurnNonce == $burnNonce[payload.EthereumAddress] + 1
+//@   at-call AddTransfer assert trans.Value >= gn.MinBurnAmount && payload.EthereumAddress != "" && $nsaved == old($nsaved) + 1
+//@   ensures err == nil ==> $ntr == old($ntr) + 1 && $nsaved == old($nsaved) + 1
+//@   ensures err == nil ==> $out[trans.ClientID] == old($out[trans.ClientID]) + trans.Value && $in[ADDRESS] == old($in[ADDRESS]) + trans.Value
+//@   ensures err == nil ==> forall c string :: (c != trans.ClientID ==> $out[c] == old($out[c])) && (c != ADDRESS ==> $in[c] == old($in[c]))
+//@   ensures err != nil ==> $ntr == old($ntr) && (forall c string :: $out[c] == old($out[c]) && $in[c] == old($in[c]))
+
+// ---------------------------------------------------------------- mint signatures (C18)
+// verifySignatures succeeds only if the list is non-empty and every signature in it is a valid
+// signature, under the key registered for its authorizer id, of the mint message.
+//@ func (*MintPayload).verifySignatures
+//@   prop C18
+//@   requires mp != nil && (forall i in 0..len(signatures) :: signatures[i] != nil)
+//@   ensures result == nil ==> len(signatures) > 0
+//@   ensures[verified] result == nil ==> (forall i in 0..len(signatures) :: sig_valid($authKey[signatures[i].ID], signatures[i].Signature, mint_msg(mp)))
+//@   loop 1 invariant forall k in 0..$idx+1 :: sig_valid($authKey[signatures[k].ID], signatures[k].Signature, mint_msg(mp))
+//@   loop 1 invariant toSign == mint_msg(mp) && len(signatures) > 0
